@@ -295,7 +295,8 @@ static bool check_seg(int proto, Port &rx, const Stream &st, const Feed &ref, co
   if (f.overrun) { add_viol(fmt("%s-%s-consumed-more-than-presented", P, what), seg_rep(proto, st.bytes, ends, n)); return false; }
   if (f.msgs.size() != ref.msgs.size() || !std::equal(f.msgs.begin(), f.msgs.end(), ref.msgs.begin())) {
     add_viol(fmt("%s-%s-decodes-differently-from-unsegmented", P, what), seg_rep(proto, st.bytes, ends, n) + " got=" + show(f.msgs) + fmt(" ret=%zd leftover=%zu", f.err, f.leftover) + " unsegmented=" + show(ref.msgs)); return false; }
-  if ((f.err != 0) != (ref.err != 0) || f.leftover != ref.leftover) {
+  // (after a negative return the caller stops feeding, so the leftover is only comparable when neither run was rejected)
+  if ((f.err != 0) != (ref.err != 0) || (!f.err && !ref.err && f.leftover != ref.leftover)) {
     if (ref.err == 0 && ref.leftover == 0) { add_viol(fmt("%s-%s-valid-stream-%s", P, what, f.err ? "rejected" : "left-unconsumed"), seg_rep(proto, st.bytes, ends, n) + fmt(" ret=%zd leftover=%zu", f.err, f.leftover)); return false; }
     S->status_diffs++;   // hostile stream: only the message sequence is demanded to be equal
   }
@@ -332,7 +333,7 @@ static void all_chunkings_hostile(int proto, Port &rx, const Stream &st, const F
     if (f.threw) { add_viol(fmt("%s-mixed-stream-segmented-throws", PN[proto]), rep + " what=" + f.what); return; }
     if (f.overrun || f.msgs.size() != ref.msgs.size() || !std::equal(f.msgs.begin(), f.msgs.end(), ref.msgs.begin())) {
       add_viol(fmt("%s-mixed-stream-segmented-decodes-differently-from-unsegmented", PN[proto]), rep + " got=" + show(f.msgs) + fmt(" ret=%zd leftover=%zu", f.err, f.leftover) + " unsegmented=" + show(ref.msgs)); return; }
-    if ((f.err != 0) != (ref.err != 0) || f.leftover != ref.leftover) S->status_diffs++;
+    if ((f.err != 0) != (ref.err != 0) || (!f.err && !ref.err && f.leftover != ref.leftover)) S->status_diffs++;
   }
 }
 static void fam_segment() {
